@@ -372,21 +372,29 @@ def read_siunitx(body: str, prefix_names):
 # ---------------------------------------------------------------------------
 # magnitudes: Python's own text and the documented x10^n rewrites
 # ---------------------------------------------------------------------------
-_SCI = re.compile(r"^([+-]?)(\d\.?\d*)e([+-]?)0*(\d+)$")
+_SCI = re.compile(r"(\d\.?\d*)e([+-]?)0*(\d+)")
+
+
+def _sup(exp: int) -> str:
+    return "".join("⁻" if c == "-" else _SUP[int(c)] for c in str(exp))
 
 
 def sci_rewrites(text: str):
-    """text as produced by format(m, mspec) -> {family: rewritten text} (empty if not d.ddde+xx)."""
-    m = _SCI.match(text)
-    if not m:
+    """text as produced by format(m, mspec) -> {family: text with EVERY d.ddde+xx occurrence
+    rewritten with its own exponent} (empty dict if there is no such occurrence)."""
+    if not _SCI.search(text):
         return {}
-    sign, mant, esign, edig = m.groups()
-    exp = int(("-" if esign == "-" else "") + edig)
-    sup = "".join({"-": "⁻"}.get(c, _SUP[int(c)] if c.isdigit() else c) for c in str(exp))
+
+    def sub(fmt):
+        def f(m):
+            exp = int(("-" if m.group(2) == "-" else "") + m.group(3))
+            return fmt(m.group(1), exp)
+        return _SCI.sub(f, text)
+
     return {
-        "P": f"{sign}{mant}×10{sup}",
-        "H": f"{sign}{mant}×10<sup>{exp}</sup>",
-        "L": f"{sign}{mant}\\times 10^{{{exp}}}",
+        "P": sub(lambda mant, e: f"{mant}×10{_sup(e)}"),
+        "H": sub(lambda mant, e: f"{mant}×10<sup>{e}</sup>"),
+        "L": sub(lambda mant, e: f"{mant}\\times 10^{{{e}}}"),
     }
 
 
